@@ -13,7 +13,7 @@ Inductive recv_outcome :=
 | RTimeout | RReset | REof | RGarbage.
 Record attempt := mkA { a_connect : conn_outcome; a_send : send_outcome; a_recv : recv_outcome }.
 
-Inductive proxy_mode := Direct | Forwarding.
+Inductive proxy_mode := Direct | Forwarding | Tunnelling.     (* Tunnelling: CONNECT to an http proxy, always granted *)
 
 (* what one attempt did on the network *)
 Record wire := mkW { w_connected : bool; w_sent : bool }.
@@ -64,7 +64,7 @@ Definition attempt_exception (need_connect : bool) (a : attempt) : option raised
 Definition wrap (mode : proxy_mode) (connected_to_proxy : bool) (cls : str) : exn :=
   let e1 := if isinstance L cls to_ssl then mkExn (C "SSLError") (Some cls) else mkExn cls None in
   if isinstance L (e_cls e1) to_proxy &&
-     (match mode with Forwarding => negb connected_to_proxy | Direct => false end)
+     (match mode with Direct => false | Forwarding | Tunnelling => negb connected_to_proxy end)
   then mkExn (C "ProxyError") (Some (e_cls e1))
   else if isinstance L (e_cls e1) to_protocol then mkExn (C "ProtocolError") (Some (e_cls e1))
   else e1.
